@@ -52,9 +52,9 @@ def run(ctx):
     from cyecca.models import bezier as bz
     rng = ctx.rng("c18")
     if ctx.shard % 2 == 0:
-        eval_and_deriv(ctx, bz, rng, 40 if ctx.quick else 800)
+        eval_and_deriv(ctx, bz, rng, 40 if ctx.quick else 2000)
     else:
-        solvers(ctx, bz, rng, 4000 if ctx.quick else 100000)
+        solvers(ctx, bz, rng, 4000 if ctx.quick else 300000)
         traj_consistency(ctx, bz, rng, 3000 if ctx.quick else 60000)
 
 
